@@ -210,6 +210,10 @@ def main(argv):
                 res['args'], res['kwargs'] = call
             elif v == 'REFUTED':
                 res['args_unparsed'] = True
+    if L.GIVE_UPS and res.get('verdict') == 'CONFIRMED':
+        # CrossHair silently skips ignored paths: a lemma that gave up somewhere is NOT confirmed
+        res.update(verdict='UNKNOWN', message='%d path(s) gave up: %s' % (len(L.GIVE_UPS), sorted(set(L.GIVE_UPS))[:3]))
+    res['give_ups'] = len(L.GIVE_UPS)
     res.update(paths=pstat['paths'], nontrivial_paths=pstat['nontrivial'], confirmed_paths=pstat['confirmed'],
                max_decisions=pstat['max_decisions'], solver_queries=sstat['queries'],
                solver_s=round(sstat['seconds'], 3), solver_unknown=sstat['unknown'],
